@@ -5,6 +5,7 @@ import BqVerif.Proofs.CircQudit
 import BqVerif.Proofs.CircViews
 import BqVerif.Proofs.CircKahn2
 import BqVerif.Proofs.CircPopQudit
+import BqVerif.Proofs.CircUnfold
 /-! # C05 — all views of a Circuit stay mutually consistent after every edit
 
 The views (`next/prev/front/rear/first_on/last_on`, counters, iteration) are *functions of the
@@ -191,5 +192,47 @@ example :
       [⟨6, [], [2, 1], [2, 2]⟩]]⟩
     c.invB = true ∧ (ptsQ c 1).isEmpty = false ∧
       (c.popQudit (-2)).1 = ⟨[2, 2], [[⟨1, [], [0], [2]⟩]]⟩ := by decide
+
+/-- **unfold keeps the invariant** when the block bodies of the table are well-formed (their
+operations have non-empty duplicate-free locations inside the body, radix lists of matching
+length — what constructing a `CircuitGate` guarantees), for any point (a point that is out of
+range, idle, or not a block makes the call raise and leaves the circuit alone). -/
+theorem C05_inv_unfold (c : Circ) (b : Blocks) (hb : b.Ok) (p : Int × Int) (hinv : c.Inv) :
+    (c.unfold b p).1.Inv ∧ (c.unfold b p).1.radixes = c.radixes :=
+  ⟨unfold_inv c b hb p hinv, unfold_radixes c b p⟩
+
+/-- **unfold_all keeps the invariant**, for any number of rebuild rounds. -/
+theorem C05_inv_unfold_all (c : Circ) (b : Blocks) (hb : b.Ok) (fuel : Nat) (hinv : c.Inv) :
+    (c.unfoldAll b fuel).Inv ∧ (c.unfoldAll b fuel).radixes = c.radixes :=
+  unfoldAll_inv c b hb fuel hinv
+
+/-- **Every history, blocks included**: the call language extended with `unfold(point)` and
+`unfold_all()` (`CallB`; the blocks table is a parameter): after ANY finite sequence of these
+calls from the empty circuit the invariant holds and the radixes are untouched. -/
+theorem C05_inv_history_blocks (b : Blocks) (hb : b.Ok) (radixes : List Nat) (h : List CallB)
+    (hok : ∀ call ∈ h, call.Ok radixes) :
+    ((Circ.empty radixes).runB b h).Inv ∧ ((Circ.empty radixes).runB b h).radixes = radixes :=
+  runB_inv b hb (Circ.empty radixes) h
+    ⟨by simp [Circ.empty], by simp [Circ.empty], by simp [Circ.empty]⟩ hok
+
+-- non-vacuity: a well-formed table, a history with an unfold that really unfolds
+example :
+    let body : Circ := ⟨[2, 2], [[⟨1, [], [0], [2]⟩], [⟨6, [], [0, 1], [2, 2]⟩]]⟩
+    let b : Blocks := [(1000, body)]
+    let blk : Op := ⟨1000, [], [2, 0], [2, 2]⟩
+    let h : List CallB := [.base (.append ⟨2, [], [1], [2]⟩), .base (.append blk), .unfold (0, 2)]
+    body.invB = true ∧ ((Circ.empty [2, 2, 2]).runB b h).invB = true ∧
+      ((Circ.empty [2, 2, 2]).runB b h).numOps = 3 := by decide
+example : Blocks.Ok [(1000, (⟨[2, 2], [[⟨1, [], [0], [2]⟩], [⟨6, [], [0, 1], [2, 2]⟩]]⟩ : Circ))] := by
+  intro gid body h
+  simp only [Blocks.body?, List.find?_cons, List.find?_nil] at h
+  split at h
+  · simp only [Option.map_some, Option.some.injEq] at h
+    subst h
+    intro o ho
+    simp only [Circ.ops, List.flatten_cons, List.flatten_nil, List.cons_append, List.nil_append,
+      List.mem_cons, List.not_mem_nil, or_false] at ho
+    rcases ho with rfl | rfl <;> simp [Circ.numQudits]
+  · simp at h
 
 end BqVerif.C05
